@@ -16,6 +16,15 @@ package main
 // ("rt") when the host is below max_conns at that instant, otherwise it takes the no-host path
 // (back at "pre" when keepRetrying says again, else done with 502).  Any state in which more
 // than max_conns requests are inside one transport gets the signature c14SigOvershoot (F-C14-1).
+//
+// Health checker.  Unhealthy is written either by the driver itself (the same atomic store the
+// worker does) or — cases with "worker" — by the REAL HealthCheckWorker of the parsed upstream
+// (started by NewStaticUpstreams, health_check_interval 1ms): every backend is then a loopback
+// server whose health endpoint holds the worker's GET until the driver hands it a verdict, so each
+// store of Unhealthy is one driver step.  Cases with "gate" parse `policy c14gate <inner>`: a policy
+// registered through the public proxy.RegisterPolicy that blocks at the entry of Policy.Select and
+// then delegates to the real policy, so that a verdict can land INSIDE a running Select (after the
+// all-unavailable scan of staticUpstream.Select, before the policy's own reads).
 
 import (
 	"context"
@@ -25,6 +34,8 @@ import (
 	"io"
 	"net/http"
 	"net/http/httptest"
+	"reflect"
+	"runtime"
 	"strings"
 	"sync"
 	"sync/atomic"
@@ -47,7 +58,9 @@ type c14Adv struct {
 	T     int    `json:"t"`               // request to advance to its next blocking point; <0: wait
 	O     string `json:"o,omitempty"`     // outcome used if it is inside the transport: s e c l p, h = stream headers first
 	Again bool   `json:"again,omitempty"` // keepRetrying's answer if it is asked during this step
-	Wait  int    `json:"wait,omitempty"`  // clock units (T < 0)
+	Wait  int    `json:"wait,omitempty"`  // clock units (T == -1)
+	HH    int    `json:"hh,omitempty"`    // T == -2: health verdict for host HH (worker cases: the host the worker is checking)
+	HB    bool   `json:"hb,omitempty"`    // T == -2: unhealthy?
 }
 
 type c14In struct {
@@ -57,7 +70,12 @@ type c14In struct {
 	MF      int      `json:"mf,omitempty"`
 	FT      int      `json:"ft,omitempty"` // 0 = fail_timeout 0 (no counting), <0 = 1h, >0 = that many clock units
 	Unh     []bool   `json:"unh,omitempty"`
-	Policy  string   `json:"policy,omitempty"` // first | round_robin (modelled) | random | least_conn (replayed from the observed choices, contract checked)
+	Policy  string   `json:"policy,omitempty"` // first | round_robin (modelled) | random | least_conn | ip_hash | uri_hash | header (replayed from the observed choices, contract checked)
+	Gate    bool     `json:"gate,omitempty"`   // policy c14gate <Policy>: block at the entry of Policy.Select
+	Worker  bool     `json:"worker,omitempty"` // verdicts go through the real HealthCheckWorker and gated loopback health endpoints
+	Fam     string   `json:"fam,omitempty"`    // generator family (histogram only)
+	Keep    bool     `json:"keep,omitempty"`   // stress2: fail_timeout 1h (every failure still counted at the end)
+	Flip    bool     `json:"flip,omitempty"`   // stress2: a free-running agent stores random health verdicts meanwhile
 	Threads int      `json:"threads,omitempty"`
 	Steps   []c14Adv `json:"steps,omitempty"`
 	N       int64    `json:"n,omitempty"`
@@ -83,12 +101,61 @@ type c14Thread struct {
 	cancel context.CancelFunc
 }
 
+type c14HC struct {
+	host  int
+	reply chan bool
+}
+
 type c14Run struct {
 	threads []*c14Thread
 	events  chan c14Event
 	again   bool
 	hosts   proxy.HostPool
 	trans   []*c14Transport
+	hc      chan *c14HC // worker cases: health requests waiting for a verdict
+	hcOpen  int32       // 1 while verdicts come from the driver; 0: answer healthy at once
+}
+
+// c14GatePolicy is registered as policy "c14gate": it blocks the request at the entry of
+// Policy.Select ("mid") and then asks the real policy.
+type c14GatePolicy struct {
+	inner proxy.Policy
+	run   *c14Run
+}
+
+func (g *c14GatePolicy) Select(pool proxy.HostPool, r *http.Request) *proxy.UpstreamHost {
+	if g.run != nil {
+		g.run.block(g.run.threadOf(r), "mid", -1)
+	}
+	return g.inner.Select(pool, r)
+}
+
+func c14Inner(name string) proxy.Policy {
+	switch name {
+	case "round_robin":
+		return &proxy.RoundRobin{}
+	case "random":
+		return &proxy.Random{}
+	case "least_conn":
+		return &proxy.LeastConn{}
+	case "ip_hash":
+		return &proxy.IPHash{}
+	case "uri_hash":
+		return &proxy.URIHash{}
+	case "header":
+		return &proxy.Header{Names: []string{"X-C14-Hash"}}
+	}
+	return &proxy.First{}
+}
+
+func init() {
+	proxy.RegisterPolicy("c14gate", func(args []string) proxy.Policy {
+		name := ""
+		if len(args) > 0 {
+			name = args[0]
+		}
+		return &c14GatePolicy{inner: c14Inner(name)}
+	})
 }
 
 func (r *c14Run) block(th *c14Thread, point string, host int) c14Cmd {
@@ -204,10 +271,13 @@ func c14Outcome(o string) string {
 	return "OSuccess"
 }
 
-func c14Block(in *c14In, unit time.Duration) (string, int64) {
+func c14Block(in *c14In, unit time.Duration, urls []string) (string, int64) {
 	names := make([]string, in.Hosts)
 	for i := range names {
 		names[i] = fmt.Sprintf("http://127.0.0.1:%d", 20000+i)
+		if i < len(urls) {
+			names[i] = urls[i]
+		}
 	}
 	ft, ftZ := "0s", int64(0)
 	switch {
@@ -220,8 +290,18 @@ func c14Block(in *c14In, unit time.Duration) (string, int64) {
 	if pol == "" {
 		pol = "first"
 	}
-	return fmt.Sprintf("proxy / %s {\n policy %s\n max_conns %d\n max_fails %d\n fail_timeout %s\n}\n",
-		strings.Join(names, " "), pol, in.MC, in.MF, ft), ftZ
+	if pol == "header" && !in.Gate {
+		pol = "header X-C14-Hash"
+	}
+	if in.Gate {
+		pol = "c14gate " + pol
+	}
+	extra := ""
+	if in.Worker {
+		extra = " health_check /c14hc\n health_check_interval 1ms\n health_check_timeout 30s\n"
+	}
+	return fmt.Sprintf("proxy / %s {\n policy %s\n max_conns %d\n max_fails %d\n fail_timeout %s\n%s}\n",
+		strings.Join(names, " "), pol, in.MC, in.MF, ft, extra), ftZ
 }
 
 type c14Fail struct {
@@ -243,17 +323,73 @@ func c14Sched(in *c14In, scale int) (Result, int) {
 		return c14Skip("bad input", "sched:bad-input"), 0
 	}
 	unit, slack := c14Unit*time.Duration(scale), c14Slack*time.Duration(scale)
-	text, ftZ := c14Block(in, unit)
+	run := &c14Run{events: make(chan c14Event, in.Threads+4), hc: make(chan *c14HC, in.Hosts+2), hcOpen: 1}
+	var urls []string
+	if in.Worker {
+		// every backend is a loopback server; its health endpoint holds the worker's GET until the driver answers
+		for i := 0; i < in.Hosts; i++ {
+			i := i
+			srv := httptest.NewServer(http.HandlerFunc(func(w http.ResponseWriter, r *http.Request) {
+				bad := false
+				if atomic.LoadInt32(&run.hcOpen) == 1 {
+					q := &c14HC{host: i, reply: make(chan bool, 1)}
+					run.hc <- q
+					bad = <-q.reply
+				}
+				if bad {
+					w.WriteHeader(503)
+				} else {
+					w.WriteHeader(200)
+				}
+			}))
+			defer srv.Close()
+			urls = append(urls, srv.URL)
+		}
+	}
+	text, ftZ := c14Block(in, unit, urls)
 	ups, err := proxy.NewStaticUpstreams(casketfile.NewDispenser("Testfile", strings.NewReader(text)), "")
 	if err != nil || len(ups) != 1 {
 		r := c14Skip(fmt.Sprint("setup error ", err), "sched:setup-error")
 		r.Direct = fmt.Sprint("proxy block rejected: ", err)
 		return r, 0
 	}
-	defer ups[0].Stop()
-	run := &c14Run{events: make(chan c14Event, in.Threads+4), hosts: hostsOf(ups[0])}
+	var pending *c14HC // worker cases: the health request the worker is waiting on
+	stopAll := func() {
+		// let the worker finish: every held and every further health request is answered "healthy" at once
+		atomic.StoreInt32(&run.hcOpen, 0)
+		if pending != nil {
+			pending.reply <- false
+			pending = nil
+		}
+		quit := make(chan struct{})
+		go func() {
+			for {
+				select {
+				case q := <-run.hc:
+					q.reply <- false
+				case <-quit:
+					return
+				}
+			}
+		}()
+		ups[0].Stop()
+		close(quit)
+	}
+	defer stopAll()
+	run.hosts = hostsOf(ups[0])
+	if in.Gate {
+		if g, ok := reflect.ValueOf(ups[0]).Elem().FieldByName("Policy").Interface().(*c14GatePolicy); ok {
+			g.run = run
+		} else {
+			r := c14Skip("gate policy not installed", "sched:setup-error")
+			r.Direct = "policy c14gate was not installed by the parser"
+			return r, 0
+		}
+	}
 	unh := make([]bool, in.Hosts)
-	copy(unh, in.Unh)
+	if !in.Worker {
+		copy(unh, in.Unh)
+	}
 	for i, h := range run.hosts {
 		t := &c14Transport{run: run, host: i}
 		run.trans = append(run.trans, t)
@@ -265,22 +401,22 @@ func c14Sched(in *c14In, scale int) (Result, int) {
 	p := proxy.Proxy{Next: handlerFunc(func(w http.ResponseWriter, r *http.Request) (int, error) { return 404, nil }),
 		Upstreams: []proxy.Upstream{&c14Upstream{Upstream: ups[0], run: run}}}
 
-	snapshot := func() ([][5]int64, string) {
-		var sn [][5]int64
+	snapshot := func() ([][6]int64, string) {
+		var sn [][6]int64
 		var it []string
 		for i, h := range run.hosts {
 			c := atomic.LoadInt64(&h.Conns)
 			f := int64(atomic.LoadInt32(&h.Fails))
 			n := atomic.LoadInt64(&run.trans[i].infl)
-			d, fl := h.Down(), h.Full()
+			d, fl, u := h.Down(), h.Full(), atomic.LoadInt32(&h.Unhealthy) != 0
 			b2 := func(b bool) int64 {
 				if b {
 					return 1
 				}
 				return 0
 			}
-			sn = append(sn, [5]int64{c, f, n, b2(d), b2(fl)})
-			it = append(it, fmt.Sprintf("(%s, %s, %s, %s, %s)", cZ(c), cZ(f), cZ(n), cBool(d), cBool(fl)))
+			sn = append(sn, [6]int64{c, f, n, b2(d), b2(fl), b2(u)})
+			it = append(it, fmt.Sprintf("(%s, %s, %s, %s, %s, %s)", cZ(c), cZ(f), cZ(n), cBool(d), cBool(fl), cBool(u)))
 		}
 		return sn, cList(it)
 	}
@@ -304,6 +440,19 @@ func c14Sched(in *c14In, scale int) (Result, int) {
 		}
 	}
 
+	nextHC := func() {
+		select {
+		case pending = <-run.hc:
+		case <-time.After(5 * time.Second):
+			pending = nil
+			if stuck == "" {
+				stuck = "the health-check worker did not ask for the next host within 5s"
+			}
+		}
+	}
+	if in.Worker {
+		nextHC() // the worker was started by NewStaticUpstreams: its first check is on its way
+	}
 	// start every request; each runs up to the entry of Select
 	for i := 0; i < in.Threads; i++ {
 		ctx, cancel := context.WithCancel(context.Background())
@@ -311,6 +460,7 @@ func c14Sched(in *c14In, scale int) (Result, int) {
 		run.threads = append(run.threads, th)
 		req := httptest.NewRequest("GET", "http://example.test/x", nil).WithContext(ctx)
 		req.Header.Set("X-C14-Tid", fmt.Sprint(i))
+		req.Header.Set("X-C14-Hash", "k")
 		req.RemoteAddr = "192.0.2.7:4711"
 		go func() {
 			code := 0
@@ -332,7 +482,7 @@ func c14Sched(in *c14In, scale int) (Result, int) {
 	fwdHost := map[int]int{}
 	nowUnits := 0
 	sane, marginOK, booksOK, overshoot, overlap := true, true, true, false, false
-	maxActive, nFail := 0, 0
+	maxActive, nFail, nRefused, nHealth, nLate, nMidFlip := 0, 0, 0, 0, 0, 0
 	lastSnap := sn0
 
 	record := func(hs, ev string, tBegin time.Time) {
@@ -343,7 +493,7 @@ func c14Sched(in *c14In, scale int) (Result, int) {
 		execd = append(execd, hs+"→"+ev)
 		active := 0
 		for _, t := range run.threads {
-			if t.point == "post" && t.host >= 0 || t.point == "rt" || t.point == "body" {
+			if t.point == "mid" || t.point == "post" && t.host >= 0 || t.point == "rt" || t.point == "body" {
 				active++
 			}
 		}
@@ -380,6 +530,39 @@ func c14Sched(in *c14In, scale int) (Result, int) {
 	}
 
 	advance := func(a c14Adv) {
+		if a.T == -2 {
+			if stuck != "" {
+				return
+			}
+			h := a.HH
+			if in.Worker {
+				if pending == nil {
+					return
+				}
+				// the worker's GET for this host returns with the verdict; it stores Unhealthy and asks for
+				// the next host (or starts its next round): when that request has arrived, the store is done
+				h = pending.host
+				pending.reply <- a.HB
+				nextHC()
+			} else {
+				if h < 0 || h >= len(run.hosts) {
+					return
+				}
+				v := int32(0)
+				if a.HB {
+					v = 1
+				}
+				atomic.StoreInt32(&run.hosts[h].Unhealthy, v)
+			}
+			nHealth++
+			for _, t := range run.threads {
+				if t.point == "mid" {
+					nMidFlip++
+				}
+			}
+			record(cApp("HHealth", cNat(h), cBool(a.HB)), "EvNone", time.Now())
+			return
+		}
 		if a.T < 0 {
 			d := a.Wait
 			if d < 0 {
@@ -419,6 +602,8 @@ func c14Sched(in *c14In, scale int) (Result, int) {
 			switch ev.point {
 			case "pre":
 				return "EvIdle"
+			case "mid":
+				return "EvMid"
 			case "post":
 				return cApp("EvSel", cOptNat(ev.host))
 			case "rt":
@@ -444,13 +629,30 @@ func c14Sched(in *c14In, scale int) (Result, int) {
 					sane = false
 				}
 			}
-			record(cApp("HSelect", cNat(th.id)), evTerm(ev), time.Now())
+			ctor := "HSelect"
+			if in.Gate {
+				ctor = "HSelScan"
+			}
+			record(cApp(ctor, cNat(th.id)), evTerm(ev), time.Now())
+		case "mid":
+			prev := lastSnap
+			th.gate <- c14Cmd{}
+			ev := waitEvent(th)
+			if ev.point == "post" && ev.host >= 0 && ev.host < len(prev) {
+				if prev[ev.host][3] != 0 || prev[ev.host][4] != 0 {
+					sane = false
+				}
+			}
+			record(cApp("HSelPol", cNat(th.id)), evTerm(ev), time.Now())
 		case "post":
 			run.again = a.Again
+			held := th.host
 			th.gate <- c14Cmd{}
 			ev := waitEvent(th)
 			if ev.point == "rt" {
 				fwdHost[th.id] = ev.host
+			} else if held >= 0 {
+				nRefused++ // acquireConn refused: the host had filled up since Select
 			}
 			record(cApp("HBegin", cNat(th.id), cBool(a.Again)), evTerm(ev), time.Now())
 		case "rt":
@@ -472,6 +674,9 @@ func c14Sched(in *c14In, scale int) (Result, int) {
 			ev := waitEvent(th)
 			t1 := time.Now()
 			if o == "e" && in.FT != 0 {
+				if h := fwdHost[th.id]; h >= 0 && h < len(lastSnap) && lastSnap[h][3] != 0 {
+					nLate++ // the host was already down (max_fails or health check) when this failure arrived
+				}
 				fails = append(fails, c14Fail{host: fwdHost[th.id], units: nowUnits, tRelease: t0, tDone: t1})
 				nFail++
 			}
@@ -517,10 +722,19 @@ func c14Sched(in *c14In, scale int) (Result, int) {
 		pol = 2
 	case "least_conn":
 		pol = 3
+	case "ip_hash":
+		pol = 4
+	case "uri_hash":
+		pol = 5
+	case "header":
+		pol = 6
 	}
 	term := cApp("CSched", cNat(in.Hosts), cZ(in.MC), cZ(int64(in.MF)), cZ(ftZ), cList(unhT), cN(pol),
 		cNat(in.Threads), snap0, cList(trace))
 	sig := "sched:" + in.Policy
+	if in.Gate || in.Worker {
+		sig = "health:" + in.Policy
+	}
 	if in.FT > 0 {
 		sig += ":timed"
 	}
@@ -535,9 +749,15 @@ func c14Sched(in *c14In, scale int) (Result, int) {
 	}
 	res := Result{Term: term,
 		Obs: map[string]interface{}{"steps": execd, "final": lastSnap, "overshoot": overshoot, "window_overlap": overlap,
-			"block": text, "clock_unit_ms": int64(unit / time.Millisecond)},
-		Sig: sig, Nontrivial: maxActive >= 2 || nFail > 0,
+			"block": text, "clock_unit_ms": int64(unit / time.Millisecond), "refused_acquires": nRefused,
+			"failures_while_down": nLate, "verdicts_inside_select": nMidFlip},
+		Sig: sig, Nontrivial: maxActive >= 2 || nFail > 0 || nHealth > 0,
 		Class: fmt.Sprintf("sched:hosts%d:mc%d:ft-%s:overlap=%v", in.Hosts, in.MC, ftc, overlap)}
+	if in.Fam != "" {
+		// the targeted families: what was actually driven (acquireConn refused, a failure arriving while the host
+		// was already down, a health verdict landing inside a running Select)
+		res.Class = fmt.Sprintf("%s:%s:refused=%v:late-failure=%v:verdict-in-select=%v", in.Fam, in.Policy, nRefused > 0, nLate > 0, nMidFlip > 0)
+	}
 	if stuck != "" {
 		res.Direct = stuck
 		res.Sig = "sched:stuck"
@@ -554,7 +774,7 @@ func c14Sched(in *c14In, scale int) (Result, int) {
 // c14Stress: free-running requests (no gating) through the real ServeHTTP.
 func c14Stress(in *c14In) Result {
 	sub := &c14In{Hosts: in.Hosts, MC: in.MC, MF: 1000000, FT: 1, Policy: in.Policy}
-	text, _ := c14Block(sub, c14Unit)
+	text, _ := c14Block(sub, c14Unit, nil)
 	ups, err := proxy.NewStaticUpstreams(casketfile.NewDispenser("Testfile", strings.NewReader(text)), "")
 	if err != nil || len(ups) != 1 {
 		r := c14Skip(fmt.Sprint("setup error ", err), "stress:setup-error")
@@ -674,6 +894,205 @@ func c14Stress(in *c14In) Result {
 		Obs: map[string]interface{}{"per_host_maxinfl_minconns_finalconns_finalfails": raw, "answered": answered},
 		Sig: sig, Nontrivial: true, Key: fmt.Sprintf("stress:%d:%d:%d:%d:%d", in.Hosts, in.MC, in.Threads, in.Reqs, in.Seed),
 		Class: fmt.Sprintf("stress:hosts%d:mc%d", in.Hosts, in.MC)}
+}
+
+// c14Stress2: thousands of free-running requests on 16 Ps with random outcomes (answered, backend
+// error, client cancel, body too large, panic) and random service times.  Judged on invariants only,
+// never on timing: Conns read from inside a transport is at least 1, never above max_conns, and
+// never below the number of requests inside that transport (read coherently: a sample is used only
+// if no request left the transport while it was taken); the transport never holds more than
+// max_conns requests; at quiescence Conns is 0 and Fails is the number of failures whose expiry has
+// not run — all of the injected errors while fail_timeout is an hour (also the ones that arrived
+// while the host was down), none after every timer had time to run.
+func c14Stress2(in *c14In) Result {
+	defer runtime.GOMAXPROCS(runtime.GOMAXPROCS(16))
+	mf := 1000000
+	if in.MF > 0 {
+		mf = in.MF
+	}
+	sub := &c14In{Hosts: in.Hosts, MC: in.MC, MF: mf, FT: 1, Policy: in.Policy}
+	if in.Keep {
+		sub.FT = -1
+	}
+	text, _ := c14Block(sub, c14Unit, nil)
+	ups, err := proxy.NewStaticUpstreams(casketfile.NewDispenser("Testfile", strings.NewReader(text)), "")
+	if err != nil || len(ups) != 1 {
+		r := c14Skip(fmt.Sprint("setup error ", err), "stress:setup-error")
+		r.Direct = fmt.Sprint("proxy block rejected: ", err)
+		return r
+	}
+	defer ups[0].Stop()
+	hosts := hostsOf(ups[0])
+	type hstat struct{ infl, left, maxInfl, minConns, maxConns, low, nerr, nfwd int64 }
+	stats := make([]*hstat, len(hosts))
+	upd := func(p *int64, v int64, less bool) {
+		for {
+			m := atomic.LoadInt64(p)
+			if (less && v >= m) || (!less && v <= m) || atomic.CompareAndSwapInt64(p, m, v) {
+				return
+			}
+		}
+	}
+	for i, h := range hosts {
+		h := h
+		st := &hstat{minConns: 1 << 40}
+		stats[i] = st
+		h.ReverseProxy.Transport = c14RT(func(req *http.Request) (*http.Response, error) {
+			n := atomic.AddInt64(&st.infl, 1)
+			atomic.AddInt64(&st.nfwd, 1)
+			upd(&st.maxInfl, n, false)
+			var k uint64
+			fmt.Sscan(req.Header.Get("X-C14-Key"), &k)
+			switch k % 5 {
+			case 0:
+			case 1:
+				runtime.Gosched()
+			default:
+				time.Sleep(time.Duration(k%211) * time.Microsecond)
+			}
+			// coherent sample: nobody left the transport between the two reads
+			l1 := atomic.LoadInt64(&st.left)
+			in1 := atomic.LoadInt64(&st.infl)
+			c := atomic.LoadInt64(&h.Conns)
+			l2 := atomic.LoadInt64(&st.left)
+			upd(&st.minConns, c, true)
+			upd(&st.maxConns, c, false)
+			if l1 == l2 && c < in1 {
+				atomic.AddInt64(&st.low, 1)
+			}
+			o := (k / 7) % 12
+			if o <= 2 {
+				atomic.AddInt64(&st.nerr, 1)
+			}
+			atomic.AddInt64(&st.infl, -1)
+			atomic.AddInt64(&st.left, 1)
+			switch {
+			case o <= 2:
+				return nil, errors.New("c14: injected backend error")
+			case o == 3:
+				return nil, context.Canceled
+			case o == 4:
+				return nil, httpserver.ErrMaxBytesExceeded
+			case o == 5:
+				panic("c14: injected panic")
+			}
+			return c14Response(req, io.NopCloser(strings.NewReader("ok"))), nil
+		})
+	}
+	p := proxy.Proxy{Next: handlerFunc(func(w http.ResponseWriter, r *http.Request) (int, error) { return 404, nil }), Upstreams: ups}
+	var wg sync.WaitGroup
+	var answered int64
+	rnd := NewRand(in.Seed)
+	keys := make([][]uint64, in.Threads)
+	for t := range keys {
+		for j := 0; j < in.Reqs; j++ {
+			keys[t] = append(keys[t], rnd.U64()%1000003)
+		}
+	}
+	start := make(chan struct{})
+	for t := 0; t < in.Threads; t++ {
+		wg.Add(1)
+		go func(t int) {
+			defer wg.Done()
+			<-start
+			for _, k := range keys[t] {
+				func() {
+					defer func() {
+						recover()
+						atomic.AddInt64(&answered, 1)
+					}()
+					req := httptest.NewRequest("GET", fmt.Sprintf("http://example.test/x%d", k%13), nil)
+					req.Header.Set("X-C14-Key", fmt.Sprint(k))
+					req.Header.Set("X-C14-Hash", fmt.Sprint(k%11))
+					req.RemoteAddr = fmt.Sprintf("192.0.2.%d:4711", k%17)
+					p.ServeHTTP(httptest.NewRecorder(), req)
+				}()
+			}
+		}(t)
+	}
+	stopFlip := make(chan struct{})
+	flipDone := make(chan struct{})
+	go func() {
+		// what the health-check worker does to the hosts, as fast as it can: store a verdict
+		defer close(flipDone)
+		fr := NewRand(in.Seed + 17)
+		for in.Flip {
+			select {
+			case <-stopFlip:
+				return
+			default:
+			}
+			v := int32(0)
+			if fr.Chance(40) {
+				v = 1
+			}
+			atomic.StoreInt32(&hosts[fr.Intn(len(hosts))].Unhealthy, v)
+			if fr.Chance(50) {
+				runtime.Gosched()
+			} else {
+				time.Sleep(time.Duration(fr.Intn(200)) * time.Microsecond)
+			}
+		}
+	}()
+	close(start)
+	wg.Wait()
+	close(stopFlip)
+	<-flipDone
+	for _, h := range hosts {
+		atomic.StoreInt32(&h.Unhealthy, 0)
+	}
+	if !in.Keep {
+		// every expiry goroutine gets all the time it may need (a loaded machine only makes this slower);
+		// a decrement that never comes is still missing after 20 s
+		time.Sleep(c14Unit)
+		for deadline := time.Now().Add(20 * time.Second); time.Now().Before(deadline); time.Sleep(2 * time.Millisecond) {
+			left := false
+			for _, h := range hosts {
+				if atomic.LoadInt32(&h.Fails) > 0 {
+					left = true
+				}
+			}
+			if !left {
+				break
+			}
+		}
+	}
+	var obs []string
+	var raw [][7]int64
+	over := false
+	clean := true
+	var fwd int64
+	for i, h := range hosts {
+		st := stats[i]
+		mn := st.minConns
+		if mn == 1<<40 {
+			mn = 1
+		}
+		fc, ff := atomic.LoadInt64(&h.Conns), int64(atomic.LoadInt32(&h.Fails))
+		if in.MC > 0 && (st.maxInfl > in.MC || st.maxConns > in.MC) {
+			over = true
+		}
+		want := int64(0)
+		if in.Keep {
+			want = st.nerr
+		}
+		if fc != 0 || ff != want || mn < 1 || st.low != 0 {
+			clean = false
+		}
+		fwd += st.nfwd
+		raw = append(raw, [7]int64{st.maxInfl, mn, st.maxConns, st.low, fc, ff, st.nerr})
+		obs = append(obs, fmt.Sprintf("(%s, %s, %s, %s, %s, %s, %s)", cZ(st.maxInfl), cZ(mn), cZ(st.maxConns), cZ(st.low), cZ(fc), cZ(ff), cZ(st.nerr)))
+	}
+	nreq := int64(in.Threads * in.Reqs)
+	sig := "stress2"
+	if over && clean && answered == nreq {
+		sig = c14SigOvershoot
+	}
+	return Result{Term: cApp("CStress2", cNat(in.Hosts), cZ(in.MC), cBool(in.Keep), cZ(nreq), cList(obs), cZ(answered)),
+		Obs: map[string]interface{}{"per_host_maxinfl_minconns_maxconns_low_finalconns_finalfails_errors": raw, "answered": answered,
+			"requests": nreq, "forwards": fwd, "block": text},
+		Sig: sig, Nontrivial: fwd > 0, Key: fmt.Sprintf("stress2:%d:%d:%d:%d:%d:%v:%s:%d", in.Hosts, in.MC, in.Threads, in.Reqs, in.Seed, in.Keep, in.Policy, in.MF) + fmt.Sprint(in.Flip),
+		Class: fmt.Sprintf("stress2:hosts%d:mc%d:keep=%v:health-flips=%v", in.Hosts, in.MC, in.Keep, in.Flip)}
 }
 
 type c14RT func(*http.Request) (*http.Response, error)
@@ -840,6 +1259,8 @@ func c14RunOne(in *c14In) Result {
 		return res
 	case "stress":
 		return c14Stress(in)
+	case "stress2":
+		return c14Stress2(in)
 	case "maxfails", "maxconns":
 		return c14Cfg(in)
 	}
@@ -1014,13 +1435,139 @@ func c14Gen(r *Rand, tier string) []interface{} {
 		out = append(out, &c14In{Kind: "stress", Hosts: r.Range(1, 3), MC: []int64{0, 0, 2, 4}[r.Intn(4)],
 			Threads: r.Range(4, 16), Reqs: r.Range(20, 60), Policy: r.Pick([]string{"first", "round_robin", "least_conn", "random"}), Seed: r.U64() % 1000000})
 	}
+	// 6. refused acquisitions for EVERY policy: one more request than the pool has slots (max_conns 1), all
+	// of them through Select before any is counted, so acquireConn must refuse at least one; then outcomes
+	// and retries in random order.  With the gated policy each Select also stops at the entry of Policy.Select.
+	allPols := []string{"first", "round_robin", "random", "least_conn", "ip_hash", "uri_hash", "header"}
+	maxHosts, variants := 2, 2
+	if tier == "thorough" {
+		maxHosts, variants = 3, 8
+	}
+	for _, pol := range allPols {
+		for hosts := 1; hosts <= maxHosts; hosts++ {
+			for _, gate := range []bool{false, true} {
+				for v := 0; v < variants; v++ {
+					again := v%2 == 1
+					in := &c14In{Kind: "sched", Hosts: hosts, MC: 1, MF: r.Range(1, 2), FT: []int{-1, -1, 0}[r.Intn(3)], Policy: pol,
+						Threads: hosts + 1, Gate: gate, Fam: "refuse"}
+					nsel := 1
+					if gate && hosts >= 2 {
+						nsel = 2
+					}
+					for k := 0; k < nsel; k++ {
+						for _, t := range r.Perm(in.Threads) {
+							in.Steps = append(in.Steps, c14Adv{T: t})
+						}
+					}
+					for _, t := range r.Perm(in.Threads) {
+						in.Steps = append(in.Steps, c14Adv{T: t, Again: again})
+					}
+					for k := 0; k < 4*in.Threads; k++ {
+						in.Steps = append(in.Steps, c14Adv{T: r.Intn(in.Threads), O: r.Pick([]string{"s", "e", "e", "c", "p", "l"}), Again: again && r.Chance(60)})
+					}
+					out = append(out, in)
+				}
+			}
+		}
+	}
+	// 7. a failure that arrives while the host is ALREADY down must be recorded (and, timed, keep the host down
+	// for fail_timeout from ITS arrival): down by max_fails, by the driver's store of Unhealthy, or by the verdict
+	// of the real health-check worker
+	hv := func(h int, b bool) c14Adv { return c14Adv{T: -2, HH: h, HB: b} }
+	nLate := 6
+	if tier == "thorough" {
+		nLate = 40
+	}
+	for i := 0; i < nLate; i++ {
+		for _, pol := range allPols {
+			// (i) max_fails: every request is in flight on the one backend, then they fail one after the other
+			in := &c14In{Kind: "sched", Hosts: 1, MC: []int64{0, 3}[r.Intn(2)], MF: r.Range(1, 2), FT: -1, Policy: pol, Threads: 3, Fam: "late"}
+			for k := 0; k < 2; k++ {
+				for t := 0; t < 3; t++ {
+					in.Steps = append(in.Steps, c14Adv{T: t})
+				}
+			}
+			for _, t := range r.Perm(3) {
+				in.Steps = append(in.Steps, c14Adv{T: t, O: "e", Again: r.Chance(30)})
+			}
+			out = append(out, in)
+			// (ii)/(iii) marked unhealthy while two requests are in flight; they fail; declared healthy again: still down
+			// (max_fails reached by the failures that arrived while it was unhealthy); a third request gets no host
+			in = &c14In{Kind: "sched", Hosts: 1, MC: 0, MF: r.Range(1, 2), FT: -1, Policy: pol, Threads: 3, Worker: i%2 == 1, Gate: i%3 == 2, Fam: "late"}
+			in.Steps = []c14Adv{{T: 0}, {T: 1}, {T: 0}, {T: 1}, hv(0, true), {T: 0, O: "e"}, {T: 1, O: "e"}, hv(0, false), {T: 2}, {T: 2}}
+			out = append(out, in)
+		}
+	}
+	for i := 0; i < nTimed/3; i++ {
+		// timed: unhealthy at 0, a failure arrives at a while unhealthy, healthy again at once; the probe between
+		// fail_timeout and a + fail_timeout must find the host still down, the one after a + fail_timeout up
+		ft := r.Range(2, 3)
+		a := r.Range(1, ft-1)
+		in := &c14In{Kind: "sched", Hosts: 1, MC: 0, MF: 1, FT: ft, Policy: r.Pick(allPols), Threads: 3, Worker: i%2 == 0, Fam: "late"}
+		in.Steps = []c14Adv{{T: 0}, {T: 1}, {T: 0}, {T: 1}, {T: 0, O: "e"}, hv(0, true), {T: -1, Wait: a}, {T: 1, O: "e"}, hv(0, false),
+			{T: -1, Wait: ft - a}, {T: 2}, {T: 2, Again: true}, {T: -1, Wait: a}, {T: 2, O: "s"}, {T: 2, O: "s"}, {T: 2, O: "s"}}
+		out = append(out, in)
+		c14Batch = append(c14Batch, in)
+	}
+	// 8. Select against the health checker: verdicts before, INSIDE (gated policy) and after a Select
+	nHealthRandom := 250
+	if tier == "thorough" {
+		nHealthRandom = 3000
+	}
+	sel2 := func(t int) []c14Adv { return []c14Adv{{T: t}, {T: t}} }
+	for _, pol := range allPols {
+		for _, worker := range []bool{false, true} {
+			mk := func(steps ...[]c14Adv) {
+				in := &c14In{Kind: "sched", Hosts: 2, MC: 0, MF: 1, FT: -1, Policy: pol, Threads: 2, Gate: true, Worker: worker, Fam: "health"}
+				for _, st := range steps {
+					in.Steps = append(in.Steps, st...)
+				}
+				out = append(out, in)
+			}
+			one := func(a c14Adv) []c14Adv { return []c14Adv{a} }
+			fwd := []c14Adv{{T: 0}, {T: 0, O: "e"}}
+			// marked before the Select: never its answer
+			mk(one(hv(0, true)), one(hv(1, false)), sel2(0), fwd)
+			mk(one(hv(0, false)), one(hv(1, true)), sel2(0), fwd)
+			// marked inside the Select (after the scan): the policy's own read sees it
+			mk(one(c14Adv{T: 0}), one(hv(0, true)), one(hv(1, false)), one(c14Adv{T: 0}), fwd)
+			mk(one(c14Adv{T: 0}), one(hv(0, true)), one(hv(1, true)), one(c14Adv{T: 0}), one(c14Adv{T: 0, Again: true}), sel2(0))
+			// marked after the Select, in the window: still forwarded (and its failure recorded while down)
+			mk(sel2(0), one(hv(0, true)), one(hv(1, true)), fwd, sel2(1))
+			// everything unhealthy: nil without consulting the policy; declared healthy inside the next Select
+			mk(one(hv(0, true)), one(hv(1, true)), one(c14Adv{T: 0}), one(c14Adv{T: 0, Again: true}), one(hv(0, false)), sel2(0), fwd)
+			mk(one(hv(0, true)), one(hv(1, false)), one(c14Adv{T: 0}), one(hv(0, false)), one(hv(1, false)), one(c14Adv{T: 0}), fwd)
+		}
+	}
+	for i := 0; i < nHealthRandom; i++ {
+		in := &c14In{Kind: "sched", Hosts: r.Range(2, 3), Threads: r.Range(2, 3), MC: []int64{0, 0, 1, 2}[r.Intn(4)], MF: r.Range(1, 2),
+			FT: []int{0, -1, -1}[r.Intn(3)], Policy: r.Pick(allPols), Gate: r.Chance(80), Worker: r.Chance(65), Fam: "health"}
+		n := r.Range(8, 12*in.Threads)
+		for k := 0; k < n; k++ {
+			if r.Chance(30) {
+				in.Steps = append(in.Steps, hv(r.Intn(in.Hosts), r.Chance(50)))
+				continue
+			}
+			in.Steps = append(in.Steps, c14Adv{T: r.Intn(in.Threads), O: r.Pick(outcomes), Again: r.Chance(40)})
+		}
+		out = append(out, in)
+	}
+	// 9. free-running stress on 16 Ps: thousands of requests, random outcomes
+	for i := 0; i < nStress; i++ {
+		in := &c14In{Kind: "stress2", Hosts: r.Range(1, 3), MC: []int64{0, 1, 2, 4}[r.Intn(4)], Threads: r.Range(16, 48), Reqs: r.Range(60, 150),
+			Policy: r.Pick(allPols), Seed: r.U64() % 1000000, Keep: i%3 == 2, Flip: i%2 == 0}
+		if in.Keep {
+			in.MF = []int{0, 2, 5}[r.Intn(3)]
+		}
+		out = append(out, in)
+	}
 	return out
 }
 
 func init() {
 	register(&Property{
 		ID: "C14", Imports: "V.Lib V.C14_Model", Judge: "judge",
-		Rule: "cases = real Proxy.ServeHTTP goroutines over a parsed proxy block, stepped by the driver through gated Select / barrier transports (every interleaving of 2 requests x outcomes x settings, random schedules of up to 5 requests on up to 3 hosts, timed schedules with real fail_timeout expiry), max_fails/max_conns parsing, single requests through the real http.Transport (answered / dropped / client cancel), free-running stress; non-trivial = a schedule in which two requests were simultaneously between Select and completion or a failure was recorded / accepted config / stress run; distinct = distinct Coq case term",
+		Rule: "cases = real Proxy.ServeHTTP goroutines over a parsed proxy block, stepped by the driver through gated Select / barrier transports (every interleaving of 2 requests x outcomes x settings, random schedules of up to 5 requests on up to 3 hosts, timed schedules with real fail_timeout expiry); refused acquisitions for each of the 7 policies (one more request than slots inside the select/acquire window, plain and with the gated policy); failures arriving while the host is already down by max_fails / a store of Unhealthy / the verdict of the real HealthCheckWorker (untimed and timed down-window probes); health verdicts before, inside (policy c14gate blocks at the entry of Policy.Select) and after a running Select, through the real worker held at gated loopback health endpoints or by the driver's own store; max_fails/max_conns parsing; single requests through the real http.Transport (answered / dropped / client cancel); free-running stress (incl. thousands of requests on 16 Ps with random outcomes, coherent in-transport samples of Conns); non-trivial = a schedule in which two requests were simultaneously between Select and completion or a failure was recorded or a health verdict was delivered / accepted config / stress run that forwarded; distinct = distinct Coq case term",
 		Gen:  c14Gen,
 		Decode: func(raw json.RawMessage) (interface{}, error) {
 			in := &c14In{}
